@@ -20,7 +20,8 @@ RULE = (
     "reverse flag) of consistent base tables over 2 faces x 2 axes and 3 faces x {1,2} axes (quick: all single edits of "
     "all bases + all double edits of the 2x2 and 3x1 bases; thorough: all); (c) Hypothesis: random consistent tables "
     "over 2-6 faces with self-links (must be accepted) and the same with 1-3 random slot edits; also two face "
-    "dimensions and a face dimension absent from the dataset (must be refused). Oracle: independent reciprocity "
+    "dimensions and a face dimension absent from the dataset (must be refused); the dataset's face coordinate carries 0..n-1 or "
+    "other labels (1-based, sparse), the table written with those labels or with 0..n-1. Oracle: independent reciprocity "
     "predicate; construction returns <=> predicate. Non-trivial = table with >= 1 link; distinct = canonical JSON of the table."
 )
 ASSUMPTIONS = [
@@ -29,7 +30,7 @@ ASSUMPTIONS = [
 ]
 
 
-def build_grid(nfaces, axes, table_json, facedims=("face",), ds_facedim="face"):
+def build_grid(nfaces, axes, table_json, facedims=("face",), ds_facedim="face", labels=None):
     import xarray as xr
     from xgcm import Grid
 
@@ -41,7 +42,7 @@ def build_grid(nfaces, axes, table_json, facedims=("face",), ds_facedim="face"):
         coords[c] = (c, np.arange(N) + 0.5)
         coords[l] = (l, np.arange(N) * 1.0)
         gc[a] = {"center": c, "left": l}
-    coords[ds_facedim] = (ds_facedim, np.arange(nfaces))
+    coords[ds_facedim] = (ds_facedim, np.arange(nfaces) if labels is None else np.asarray(labels))
     ds = xr.Dataset(coords=coords)
     fc = {}
     for fd in facedims:
@@ -49,21 +50,23 @@ def build_grid(nfaces, axes, table_json, facedims=("face",), ds_facedim="face"):
     return Grid(ds, coords=gc, face_connections=fc, autoparse_metadata=False, periodic=False)
 
 
-def verdict(nfaces, axes, table_json):
+def verdict(nfaces, axes, table_json, labels=None):
     try:
-        build_grid(nfaces, axes, table_json)
+        build_grid(nfaces, axes, table_json, labels=labels)
         return True, None
     except Exception as e:  # noqa: BLE001
         return False, type(e).__name__
 
 
-def assert_table(nfaces, axes, table_json, what):
-    want = L.reciprocal(gen.table_to_model(table_json), set(range(nfaces)), set(axes))
-    got, exc = verdict(nfaces, axes, table_json)
+def assert_table(nfaces, axes, table_json, what, labels=None):
+    """labels: the values of the dataset's face coordinate (default 0..n-1); a face 'exists' iff it is one of them."""
+    faces = set(range(nfaces)) if labels is None else set(int(x) for x in labels)
+    want = L.reciprocal(gen.table_to_model(table_json), faces, set(axes))
+    got, exc = verdict(nfaces, axes, table_json, labels)
     if got != want:
         raise Violation(
             f"{what}: " + ("non-reciprocal table accepted" if got else "reciprocal table refused"),
-            nfaces=nfaces, axes=list(axes), table=table_json, exception=exc)
+            nfaces=nfaces, axes=list(axes), table=table_json, exception=exc, face_labels=None if labels is None else [int(x) for x in labels])
     return want
 
 
@@ -191,8 +194,11 @@ def strategy_impl(draw, tier):
     special = draw(st.sampled_from(["none"] * 8 + ["two-facedims", "absent-facedim"]))
     # the order in which the faces (and the axes of a face) are listed is part of the input
     order = draw(st.permutations(sorted(table)))
+    # the labels of the dataset's face coordinate: 0..n-1, or other integers (1-based tiles, a subset of a larger set);
+    # "relabel" says whether the table is written with those labels (consistent) or still with 0..n-1
+    labels = draw(st.sampled_from([None, None, "one-based", "sparse"]))
     return {"nfaces": nfaces, "axes": axes, "table": table, "edits": edits, "special": special, "face_order": list(order),
-            "reverse_axes": draw(st.booleans())}
+            "reverse_axes": draw(st.booleans()), "labels": labels, "relabel": draw(st.booleans())}
 
 
 def strategy(tier):
@@ -208,8 +214,17 @@ def check(case, ctx):
     if case.get("face_order"):
         table = {f: ({a: table[f][a] for a in reversed(list(table[f]))} if case.get("reverse_axes") else table[f]) for f in case["face_order"] if f in table}
     special = case.get("special", "none")
+    labels = None
+    if case.get("labels") == "one-based":
+        labels = [i + 1 for i in range(nfaces)]
+    elif case.get("labels") == "sparse":
+        labels = [2 * i + 3 for i in range(nfaces)]
+    if labels is not None and case.get("relabel"):
+        m = {i: labels[i] for i in range(nfaces)}
+        table = {str(m.get(int(f), int(f))): {a: [None if l is None else [m.get(int(l[0]), int(l[0])), l[1], l[2]] for l in sides]
+                                                for a, sides in per.items()} for f, per in table.items()}
     if special == "none":
-        want = assert_table(nfaces, axes, table, "random table")
+        want = assert_table(nfaces, axes, table, "random table", labels=labels)
     else:
         try:
             if special == "two-facedims":
@@ -223,7 +238,8 @@ def check(case, ctx):
             want = False
     nlinks = sum(1 for per in table.values() for sides in per.values() for l in sides if l is not None)
     selfl = any(l is not None and str(l[0]) == f for f, per in table.items() for sides in per.values() for l in sides)
-    classes = [f"faces:{nfaces}", f"naxes:{len(axes)}", f"edits:{len(case.get('edits') or [])}", f"accept:{want}", f"special:{special}"]
+    classes = [f"faces:{nfaces}", f"naxes:{len(axes)}", f"edits:{len(case.get('edits') or [])}", f"accept:{want}", f"special:{special}",
+               f"labels:{case.get('labels')}/{'relabelled' if case.get('relabel') else 'as-indices'}"]
     if selfl:
         classes.append("self-link")
     return {"nontrivial": nlinks > 0, "classes": classes}
